@@ -1,6 +1,6 @@
 /-
   Model/C14: service/state/worldstate.go + account.go reduced to
-  balance + storage per account.
+  balance + contract code + object graph + storage per account.
 
   * `Snap`   = accountSnapshotImpl (immutable). `stamp` models POINTER IDENTITY:
                the Go code compares snapshot pointers in
@@ -30,32 +30,57 @@ def kvGet (l : KV) (k : Nat) : Option Nat := l.lookup k
 def kvDel (l : KV) (k : Nat) : KV := l.filter (fun p => p.1 != k)
 def kvSet (l : KV) (k v : Nat) : KV := (k, v) :: kvDel l k
 
+/-- object graph of one contract code: (nextHash, graph data); `objectGraph.Changed`
+    with hasData = true: the result does not depend on the old graph, and (0, empty) is nil -/
+abbrev Graph := Nat × Nat
+def graphChanged (nh g : Nat) : Option Graph := if nh = 0 ∧ g = 0 then none else some (nh, g)
+
+/-- objectGraphCache: code id → graph (an absent entry and a nil entry read the same) -/
+abbrev OgCache := List (Nat × Graph)
+def ogGet (c : OgCache) (id : Nat) : Option Graph := c.lookup id
+def ogSet (c : OgCache) (id : Nat) (g : Option Graph) : OgCache :=
+  match g with
+  | some g => (id, g) :: c.filter (fun p => p.1 != id)
+  | none => c.filter (fun p => p.1 != id)
+
+/-- everything of accountData except the storage: balance, the contract part
+    (isContract / curContract, reduced to the code id of the current contract;
+    `none` = not a contract account) and the object graph cache.  Snapshots copy
+    it (`objCache.Clone()`), Reset copies it back, Clear zeroes it. -/
+structure Hdr where
+  bal : Int
+  code : Option Nat
+  og : OgCache
+deriving DecidableEq, Repr
+
+def Hdr.zero : Hdr := ⟨0, none, []⟩
+
 /-- accountSnapshotImpl -/
 structure Snap where
   stamp : Nat
-  bal : Int
+  hdr : Hdr
   store : Option KV
 deriving DecidableEq, Repr
 
-/-- accountData.IsEmpty on a snapshot (isContract = false, state = 0 in this reduction) -/
-def Snap.isEmpty (s : Snap) : Bool := s.bal == 0 && s.store.isNone
+/-- accountData.IsEmpty on a snapshot (state = 0 in this reduction) -/
+def Snap.isEmpty (s : Snap) : Bool := s.hdr.bal == 0 && s.hdr.code.isNone && s.store.isNone
 
 /-- accountStateImpl -/
 structure AState where
-  bal : Int
+  hdr : Hdr
   store : Option KV
   last : Option Snap
 deriving Repr
 
 /-- newAccountState(db, nil, ..) -/
-def AState.fresh : AState := ⟨0, none, none⟩
+def AState.fresh : AState := ⟨Hdr.zero, none, none⟩
 
 /-- accountStateImpl.Clear -/
-def AState.clear (_ : AState) : AState := ⟨0, none, none⟩
+def AState.clear (_ : AState) : AState := ⟨Hdr.zero, none, none⟩
 
 /-- accountStateImpl.Reset(snapshot) -/
 def AState.reset (st : AState) (s : Snap) : AState :=
-  let full : AState := ⟨s.bal, s.store, some s⟩
+  let full : AState := ⟨s.hdr, s.store, some s⟩
   match st.last with
   | some l => if l.stamp = s.stamp then st else full
   | none => full
@@ -67,7 +92,7 @@ def AState.ofSnap : Option Snap → AState
 
 /-- accountStateImpl.SetBalance -/
 def AState.setBalance (st : AState) (v : Int) : AState :=
-  if st.bal ≠ v then { st with bal := v, last := none } else st
+  if st.hdr.bal ≠ v then { st with hdr := { st.hdr with bal := v }, last := none } else st
 
 /-- accountStateImpl.DeleteValue; returns the old value (0 = nil) -/
 def AState.deleteValue (st : AState) (k : Nat) : AState × Nat :=
@@ -85,6 +110,20 @@ def AState.setValue (st : AState) (k v : Nat) : AState × Nat :=
     let l := st.store.getD []
     ({ st with store := some (kvSet l k v), last := none }, (kvGet l k).getD 0)
 
+/-- InitContractAccount + DeployContract(code c) + AcceptContract: the account is a
+    contract whose current contract has code id `c` (every step marks dirty) -/
+def AState.deploy (st : AState) (c : Nat) : AState :=
+  { st with hdr := { st.hdr with code := some c }, last := none }
+
+/-- accountStateImpl.SetObjGraph(curContract.CodeID(), true, nh, g); only issued for contract accounts -/
+def AState.setObjGraph (st : AState) (nh g : Nat) : AState :=
+  match st.hdr.code with
+  | none => st
+  | some c => { st with hdr := { st.hdr with og := ogSet st.hdr.og c (graphChanged nh g) }, last := none }
+
+/-- GetObjGraph(curContract.CodeID(), true) -/
+def Hdr.graph (h : Hdr) : Option Graph := h.code.bind (ogGet h.og)
+
 /-- `store.Empty()` normalisation in accountStateImpl.GetSnapshot -/
 def normStore : Option KV → Option KV
   | some [] => none
@@ -95,7 +134,7 @@ def AState.getSnapshot (st : AState) (next : Nat) : AState × Snap :=
   match st.last with
   | some s => (st, s)
   | none =>
-    let s : Snap := ⟨next, st.bal, normStore st.store⟩
+    let s : Snap := ⟨next, st.hdr, normStore st.store⟩
     ({ st with last := some s }, s)
 
 def upd {α : Type} (f : Nat → α) (a : Nat) (v : α) : Nat → α := fun x => if x = a then v else f x
@@ -129,6 +168,14 @@ def World.setValue (w : World) (a k v : Nat) : World × Nat :=
   let (w1, st) := w.getAccountState a
   let (st', old) := st.setValue k v
   (w1.putState a st', old)
+
+def World.deploy (w : World) (a c : Nat) : World :=
+  let (w1, st) := w.getAccountState a
+  w1.putState a (st.deploy c)
+
+def World.setObjGraph (w : World) (a nh g : Nat) : World :=
+  let (w1, st) := w.getAccountState a
+  w1.putState a (st.setObjGraph nh g)
 
 def World.deleteValue (w : World) (a k : Nat) : World × Nat :=
   let (w1, st) := w.getAccountState a
@@ -198,16 +245,18 @@ def World.reload (base : Nat) (ws : WSnap) : World :=
 /-- logical content of an account -/
 structure AcctData where
   bal : Int
+  code : Option Nat          -- current contract, none = not a contract account
+  graph : Option Graph       -- object graph of the current contract
   get : Nat → Option Nat
 
-def dataOf (bal : Int) (store : Option KV) : AcctData := ⟨bal, fun k => kvGet (store.getD []) k⟩
+def dataOf (h : Hdr) (store : Option KV) : AcctData := ⟨h.bal, h.code, h.graph, fun k => kvGet (store.getD []) k⟩
 
 /-- emptiness of mutable content (nil store or empty store) -/
-def contentEmpty (bal : Int) (store : Option KV) : Bool := bal == 0 && (normStore store).isNone
+def contentEmpty (h : Hdr) (store : Option KV) : Bool := h.bal == 0 && h.code.isNone && (normStore store).isNone
 
 def absSnap (s : Option Snap) : Option AcctData :=
   match s with
-  | some s => if s.isEmpty then none else some (dataOf s.bal s.store)
+  | some s => if s.isEmpty then none else some (dataOf s.hdr s.store)
   | none => none
 
 def absWSnap (ws : WSnap) : Nat → Option AcctData := fun a => absSnap (ws a)
@@ -215,7 +264,7 @@ def absWSnap (ws : WSnap) : Nat → Option AcctData := fun a => absSnap (ws a)
 /-- what the world logically contains (mutable cache first, else trie) -/
 def World.abs (w : World) : Nat → Option AcctData := fun a =>
   match w.macc a with
-  | some st => if contentEmpty st.bal st.store then none else some (dataOf st.bal st.store)
+  | some st => if contentEmpty st.hdr st.store then none else some (dataOf st.hdr st.store)
   | none => absSnap (w.trie a)
 
 /-- StateHash: `H` is the Merkle root as a function of the abstract account map
@@ -229,6 +278,8 @@ inductive Op where
   | setBalance (a : Nat) (v : Int)
   | setValue (a k v : Nat)
   | deleteValue (a k : Nat)
+  | deploy (a c : Nat)
+  | setObjGraph (a nh g : Nat)
   | touch (a : Nat)              -- GetAccountState only (reads through the state)
   | peek (a : Nat)               -- ws.GetAccountSnapshot (reads through the snapshot)
   | snapshot
@@ -246,6 +297,8 @@ def Hist.step (h : Hist) : Op → Hist
   | .setBalance a v => { h with w := h.w.setBalance a v }
   | .setValue a k v => { h with w := (h.w.setValue a k v).1 }
   | .deleteValue a k => { h with w := (h.w.deleteValue a k).1 }
+  | .deploy a c => { h with w := h.w.deploy a c }
+  | .setObjGraph a nh g => { h with w := h.w.setObjGraph a nh g }
   | .touch a => { h with w := (h.w.getAccountState a).1 }
   | .peek a => { h with w := (h.w.getAccountSnapshot a).1 }
   | .snapshot => let (w', s) := h.w.getSnapshot; ⟨w', h.snaps ++ [s]⟩
